@@ -35,7 +35,7 @@ func newFlatSys(c *vCtx, metric DistanceKind, dim int, nids int) *vFlatSys {
 	if metric == L2Squared {
 		thr = []float32{0, 1, 2, 25, 0.5, 1000}
 	}
-	restr := [][]uint32{nil, {1}, {2, 3}, {9}, {1, 9}}
+	restr := [][]uint32{nil, {1}, {2, 3}, {9}, {1, 9}, {2, 2, 1}} // the last one names an id twice (a restriction is a set)
 	for _, q := range vQueryAlphabet(dim) {
 		for _, k := range []int{-1, 0, 1, 2, nids, nids + 1} {
 			for _, t := range thr {
